@@ -401,7 +401,11 @@ def gen_program(rnd, nfiles=None, opts=None, base=None, tries=30, charset="bk", 
         b = base if base is not None else rnd.choice([None, 0o1000, 0o2000, 0, 0o40000, 0o100000, 0o157776, 0o1001 if opts.get("odd_base") else 0o1002])
         if b is not None:
             site = rnd.random()
-            if site < 0.6:
+            if site < 0.12 and opts.get("late_base", True):
+                # the base named through a constant that is defined somewhere further down in the same file
+                files[0].stmts.insert(0, apm.link(("sym", "lkb7q")))
+                files[0].stmts.insert(rnd.randrange(1, len(files[0].stmts) + 1), apm.assign("lkb7q", apm.num(b)))
+            elif site < 0.6:
                 files[0].stmts.insert(0, apm.link(apm.num(b)))
             elif site < 0.8:
                 d = apm.dotassign(apm.num(b))
